@@ -43,6 +43,8 @@ def main():
             result["checks"][c] = {"exit": rc, "wall_s": round(time.time() - t, 1), "lines": [l[:400] for l in lines[:4]]}
     finally:
         sh("git -C /repo checkout -- . && git -C /repo clean -fdq -- jsonpath_rfc9535")
+        # evidence and replay files written while the change was applied describe the changed tree, not /repo
+        sh(f"cd {VERIF} && git checkout -- evidence && git clean -fdq -- replays evidence")
     rc, out = sh(f"cd {d} && PYTHONPATH=/repo /venv/bin/python demo.py 2>&1")
     result["demo_without_change"] = {"exit": rc, "tail": out.strip()[-200:]}
     meta["evaluation"] = result
